@@ -285,3 +285,131 @@ def run_case(case):
         os.environ.clear()
         os.environ.update(old_env)
     return res
+
+
+# ------------------------------------------------------------------------------
+# the allotment under concurrency: the task puller blocks in `_alloc` until the result pusher's
+# `_dealloc` has made room.  Every placement of the pusher's steps between the puller's steps is
+# enumerated (lock and event operations are the yield points).
+#
+class _Abandon(BaseException):
+    pass
+
+
+class _YEvent(object):
+    def __init__(self, baton):
+        self.baton, self.flag = baton, False
+
+    def _yield(self, tag):
+        if self.baton.closing:
+            raise _Abandon()                          # the case is over: a waiting thread gives up
+        self.baton.yield_point(tag)
+
+    def is_set(self):
+        self._yield('evt:is_set')
+        return self.flag
+
+    def set(self):
+        self._yield('evt:set')
+        self.flag = True
+
+    def clear(self):
+        self._yield('evt:clear')
+        self.flag = False
+
+    def wait(self, timeout=None):
+        self._yield('evt:wait')
+        return self.flag
+
+
+def alloc_race_cases(tier):
+    for n in (1, 2, 3):
+        for need in range(1, n + 1):
+            for holders in (1, 2):
+                if holders > n:
+                    continue
+                for k1 in range(0, 14):
+                    for k2 in ((0,) if holders == 1 else (0, 3, 9)):
+                        yield {'kind': 'mpi_alloc_race', 'ranks': n, 'need': need, 'holders': holders,
+                               'k1': k1, 'k2': k2}
+
+
+def run_alloc_race(case):
+    from .detsched import Baton
+    from .execsim import FakeLock
+    res = CaseResult()
+    res.label('mpi_alloc_race')
+    n, need, holders = int(case['ranks']), int(case['need']), int(case['holders'])
+    baton = Baton()
+    log = prof = _Quiet()
+    r = wm._Resources(log, prof, n)
+    # the worker is fully occupied by `holders` running requests
+    held = []
+    per = n // holders
+    for h in range(holders):
+        cnt = per if h < holders - 1 else n - per * (holders - 1)
+        t = {'uid': 'held.%d' % h, 'description': {'ranks': cnt}}
+        t['ranks'] = r._alloc(t)
+        t['rank'] = t['ranks'][0]
+        held.append(t)
+    r._res_lock = FakeLock(baton, 'res_lock')
+    evt = _YEvent(baton)
+    evt.flag = r._res_evt.is_set()
+    r._res_evt = evt
+    new = {'uid': 'req.new', 'description': {'ranks': need}}
+    out = {}
+    try:
+        baton.spawn('puller', lambda: out.setdefault('ranks', r._alloc(new)))
+        for i, t in enumerate(held):
+            baton.spawn('pusher.%d' % i, lambda t=t: r._dealloc(t))
+
+        def run(name, steps):
+            for _ in range(steps):
+                ct = baton.threads[name]
+                if ct.done:
+                    return
+                b = getattr(ct, 'blocked', None)
+                if b is not None and b.held():
+                    return
+                baton.resume(name)
+
+        def finish(name):
+            for _ in range(400):
+                ct = baton.threads[name]
+                if ct.done:
+                    return True
+                b = getattr(ct, 'blocked', None)
+                if b is not None and b.held():
+                    run('puller', 1)                  # whoever holds the lock moves on
+                    continue
+                baton.resume(name)
+            return baton.threads[name].done
+
+        run('puller', int(case['k1']))
+        if not finish('pusher.0'):
+            res.fail('mpi_alloc_race:dealloc_stuck', str(case))
+        if holders == 2:
+            run('puller', int(case['k2']))
+            if not finish('pusher.1'):
+                res.fail('mpi_alloc_race:dealloc_stuck', str(case))
+        # everything the request needs is free now: it is placed
+        for _ in range(600):
+            if baton.threads['puller'].done:
+                break
+            baton.resume('puller')
+        ct = baton.threads['puller']
+        if not ct.done:
+            res.fail('mpi_alloc_race:request_never_placed',
+                     '%d of %d ranks free, the request needs %d and still waits (puller preempted '
+                     'after %s steps)' % (r._resources['cores'].count(wm.FREE), n, need, case['k1']))
+        elif ct.exc is not None:
+            res.fail(exc_sig('mpi_alloc_race:alloc_raised', ct.exc), repr(ct.exc))
+        elif len(set(out.get('ranks') or [])) != need:
+            res.fail('mpi_alloc_race:ranks_malformed', str(out))
+        res.nontrivial = int(case['k1']) > 0
+    finally:
+        try:
+            baton.finish_all()
+        except Exception:
+            pass
+    return res
